@@ -925,7 +925,9 @@ ODD_LABELS = ["{north}", "turn{90}", "{", "}", "{0}", "{}", "%s", "%(x)s", "100%
 # labels that are DIFFERENT strings but look alike to code that strips, case-folds or Unicode-normalises them;
 # the members of a group are handed out together so that they meet inside one state
 ODD_GROUPS = [[" left", "left", "left "], ["\tup", "up"], ["se\u00f1al", "sen\u0303al"], ["\u00e9t\u00e9", "e\u0301te\u0301"],
-              ["\u212b", "\u00c5"], ["stra\u00dfe", "strasse"], ["\uff41", "a"], ["x\u200b", "x"], ["None", "none"], ["0", "00"]]
+              ["\u212b", "\u00c5"], ["stra\u00dfe", "strasse"], ["\uff41", "a"], ["x\u200b", "x"], ["None", "none"], ["0", "00"],
+              # one label CONTAINED in another (a list handed over as a bare string turns `in` into a substring test)
+              ["go", "go_fast", "no_go"], ["a1", "a10", "ba1"], ["l", "left_l", "ll"]]
 
 
 def odd_label_map(g, rng):
@@ -998,3 +1000,21 @@ def no_zero_game(rng):
     players = [kinds[0], kinds[1]] + [PR] * k + [PR]
     g = finish(rewards, players, xtl, [fin], {"family": "no_zero"})
     return with_orphan_state(g, rng)
+
+
+def close_costs_game(rng):
+    """acyclic; Player 2 has two reachability-tied actions whose continuation costs (under Player 2's own
+    reachability strategies further down) differ by a few 1e-7 — less than the solver's threshold, more than any
+    rounding error of an acyclic game — with the dearer one listed first; the total rewards themselves are far
+    apart, so every final strategy is a single action"""
+    d = Fr(rng.randint(2, 8), 10 ** 7)
+    c = rng.randint(3, 9)
+    lo1, lo2 = rng.randint(1, 2), rng.randint(1, 2) + 2
+    first_dear = rng.random() < 0.7
+    r3, r5 = (c + d, Fr(c)) if first_dear else (Fr(c), c + d)
+    q = rng.choice([Fr(1, 2), Fr(1, 4), Fr(3, 4)])
+    rewards = [0, 0, 0, float(r3) if r3 != int(r3) else int(r3), lo1, float(r5) if r5 != int(r5) else int(r5), lo2, 0, 0]
+    players = [P2, P2, P2, PR, PR, PR, PR, PR, PR]
+    xtl = [[("a", 1), ("b", 2)], [("x", 3), ("y", 4)], [("x", 5), ("y", 6)],
+           [(q, 8), (1 - q, 7)], [(Fr(1), 8)], [(q, 8), (1 - q, 7)], [(Fr(1), 8)], [(Fr(1), 7)], [(Fr(1), 8)]]
+    return finish(rewards, players, xtl, [8], {"family": "close_costs"})
